@@ -87,7 +87,9 @@ var c16Win = []c16Noise{
 		return ins(l, p, "\x08\x1b[?25h\x1b[?25l\x1b[H"+other+"\x1b[60;238H\x1b[?25h\x1b[?25l\r\n"), true
 	}},
 	// a cursor move without a line break does not duplicate anything
-	{"move-no-newline", func(l []byte, p, m int) ([]byte, bool) { return ins(l, p, "\x1b[199X\x1b[199C\x1b[60;40H\x1b[?25h\x1b[?25l"), true }},
+	{"move-no-newline", func(l []byte, p, m int) ([]byte, bool) {
+		return ins(l, p, "\x1b[199X\x1b[199C\x1b[60;40H\x1b[?25h\x1b[?25l"), true
+	}},
 }
 
 func c16Payloads(maxLen int) []string {
